@@ -136,6 +136,7 @@ def rule_L1(prog, fixture=False):
         base = "L1:" + f.cls
         where = "%s:%d" % (prog.rel(f.file), f.line)
         W = field_writes(f, flow, fields)
+        callee_protected = set()
         # member helpers called from process that write the state count as writes at the call
         for n in f.walk():
             if n.is_call() and n.callee and n.callee.get("cls") == f.cls and n.k == "CXXMemberCallExpr":
@@ -144,13 +145,17 @@ def rule_L1(prog, fixture=False):
                     gw = field_writes(g, Flow(g, prog), fields)
                     if gw:
                         W.append((n, gw[0][1]))
+                        # a helper that tests the lock itself in front of every one of its writes needs no test at the call
+                        if all(any(_lock_false(c, p, flag, prog) for fact in g.facts_at(wn) if not fact.belief
+                                   for (c, p) in atoms_of(fact.cond, fact.pol)) for (wn, _) in gw):
+                            callee_protected.add(n.id)
         if not W:
             res.add(base + ":lock", UNMODELLED, where, f.short, "no write of %s found in process()" % "/".join(fields), func=f.name)
             continue
         # (a) lock dominance
         bad = []
         for (n, fld) in W:
-            ok = False
+            ok = n.id in callee_protected
             for fact in f.facts_at(n):
                 if fact.belief:
                     continue
@@ -263,13 +268,13 @@ def rule_L1(prog, fixture=False):
                 deps |= flow.deps(r)
             if ids[0] == y_id:
                 reads_state = any(a[0] == "this" and a[1] in fields for a in deps)
-                ywrites.append((n, reads_state))
+                ywrites.append((n, reads_state, deps))
             elif ids[0] == e_id:
                 reads_d = any(a[0] == "parm" and a[1] == d_name for a in deps)
                 reads_y = any(x.k == "DeclRefExpr" and x.decl and x.decl.get("id") == y_id for r in rhs_nodes for x in r.walk())
-                ewrites.append((n, reads_d and reads_y))
+                ewrites.append((n, reads_d and reads_y, deps))
         widx = [i for i in (_top_level_index(body, n) for (n, _) in W) if i is not None]
-        yidx = [(_top_level_index(body, n), n) for (n, rs) in ywrites if rs]
+        yidx = [(_top_level_index(body, n), n) for (n, rs, _) in ywrites if rs]
         problems = []
         if not yidx:
             problems.append("no statement in the sample loop computes the output from the coefficient state")
@@ -288,9 +293,16 @@ def rule_L1(prog, fixture=False):
         if not ewrites:
             eproblems.append("no statement assigns the error output")
         else:
-            if not any(ok for (_, ok) in ewrites):
+            # e = d - y written through locals (const T ek = d[k] - yk; y[k] = yk; e[k] = ek): the error depends on the desired
+            # signal and on everything the output of the same iteration depends on
+            ydeps = set()
+            for (_, rs, dd) in ywrites:
+                if rs:
+                    ydeps |= {a for a in dd if a[0] in ("this", "parm")}
+            via_locals = any(any(a[0] == "parm" and a[1] == d_name for a in dd) and ydeps and ydeps <= dd for (_, _, dd) in ewrites)
+            if not any(ok for (_, ok, _) in ewrites) and not via_locals:
                 eproblems.append("%s does not combine the desired signal and the output" % ewrites[0][0].text())
-            eidx = [_top_level_index(body, n) for (n, ok) in ewrites]
+            eidx = [_top_level_index(body, n) for (n, ok, _) in ewrites]
             if widx and any(i is None or i >= min(widx) for i in eidx):
                 eproblems.append("the error is assigned after the coefficient update (a-posteriori error)")
             if yidx and any(i is not None and i < max(j for (j, _) in yidx if j is not None) for i in eidx):
